@@ -936,6 +936,7 @@ func runLinkRules(c *Ctx) {
 // ---------------------------------------------------------------- presence guards of the entity parsers (C02 / C04)
 
 func runParserGuards(c *Ctx) {
+	runVehicleIdentity(c)
 	p := c.P
 	type guard struct {
 		spec   string
@@ -994,6 +995,60 @@ func runParserGuards(c *Ctx) {
 	}
 }
 
+// runVehicleIdentity: an identifier object is produced only for a descriptor that identifies something: every non-nil
+// result of the descriptor-to-VehicleID conversion is returned on a path that has ruled out the all-empty identifier
+// (a comparison of the built value with the zero VehicleID, or a non-empty test of one of its strings). Otherwise
+// vehicles whose id, label and licence plate are present but empty all share one "identified" entry.
+func runVehicleIdentity(c *Ctx) {
+	p := c.P
+	n := 0
+	for _, f := range fnsByClass(realtimeFns(c), "(*proto.VehicleDescriptor)→(*gtfs.VehicleID)") {
+		n++
+		fname := shortName(f)
+		tb, err := extractTableCut(f)
+		if err != nil {
+			c.Undecided("GUARD", fname, "an identifier is never all-empty", p.pos(f.Pos()), err.Error())
+			continue
+		}
+		ok, detail := true, ""
+		sawNonNil := false
+		for _, r := range tb.rows {
+			if r.panics || len(r.results) == 0 || r.results[0] == "const:nil" {
+				continue
+			}
+			sawNonNil = true
+			excluded := false
+			for _, a := range r.conds {
+				// string != ""
+				if !a.opaque && a.konst == "\"\"" && a.neg {
+					excluded = true
+				}
+				// built value != zero VehicleID
+				if bo, isBo := a.v.(*ssa.BinOp); isBo && (bo.Op == token.EQL || bo.Op == token.NEQ) && typeName(bo.X.Type()) == "gtfs.VehicleID" {
+					if _, isPtr := bo.X.Type().Underlying().(*types.Pointer); !isPtr {
+						holdsNeq := a.neg
+						if a.opaque {
+							// opaque atoms carry the polarity of the branch taken on the comparison as written
+							holdsNeq = (bo.Op == token.EQL) == a.neg
+						}
+						if holdsNeq {
+							excluded = true
+						}
+					}
+				}
+			}
+			if !excluded {
+				ok = false
+				detail = "returns an identifier under [" + condsString(r.conds) + "], which does not exclude id, label and licence plate all being empty"
+			}
+		}
+		c.Check(ok && sawNonNil, "GUARD", fname, "an identifier is never all-empty", p.pos(f.Pos()), "every non-nil VehicleID is returned after the all-empty case was ruled out", detail)
+	}
+	if n == 0 {
+		c.Undecided("GUARD", "gtfs", "vehicle descriptor conversion", "-", "no function converting *proto.VehicleDescriptor to *gtfs.VehicleID found")
+	}
+}
+
 // extractTableNoLoops: decision table of a function whose loops do not influence which return is taken:
 // loops are cut at their back edges (each loop body is walked at most once).
 func extractTableNoLoops(f *ssa.Function) (*dtable, error) {
@@ -1009,6 +1064,28 @@ func extractTableNoLoops(f *ssa.Function) (*dtable, error) {
 func resolveAccLookup(c *Ctx, acc ssa.Value) (m, key ssa.Value) {
 	if lk := lookupOf(acc); lk != nil {
 		return lk.X, lk.Index
+	}
+	// `known, found := m[k]; if !found { known = new; m[k] = known }`: on one edge the looked-up entry, on the other the
+	// value that was just stored under the same key of the same map
+	if phi, ok := acc.(*ssa.Phi); ok && len(phi.Edges) == 2 {
+		for i, e := range phi.Edges {
+			lk := lookupOf(e)
+			if lk == nil {
+				continue
+			}
+			other := phi.Edges[1-i]
+			pred := phi.Block().Preds[1-i]
+			for _, r := range *other.Referrers() {
+				mu, isMU := r.(*ssa.MapUpdate)
+				if !isMU || mu.Value != other || mu.Map != lk.X {
+					continue
+				}
+				sameKey := mu.Key == lk.Index || canon(mu.Key) == canon(lk.Index)
+				if sameKey && (mu.Block() == pred || mu.Block().Dominates(pred)) {
+					return lk.X, lk.Index
+				}
+			}
+		}
 	}
 	call, ok := acc.(*ssa.Call)
 	if !ok || call.Call.IsInvoke() {
